@@ -408,6 +408,7 @@ impl Sh {
 							logged_wal: None,
 							applied_wal: None,
 							start_seq: p.start_seq,
+							ghost_ok: true,
 						};
 						self.ev(format!("seq a{} txn{} {}..{}", a, c.txn, c.first_seq, c.last_seq));
 						self.model.borrow_mut().add_commit(c);
@@ -428,6 +429,8 @@ impl Sh {
 			}
 			"flush.done" => {
 				self.stats.borrow_mut().flushes += 1;
+				// position of the completed flush in the op log (y = WAL number of the memtable)
+				ip::marker(format!("flush done wal={}", y));
 			}
 			_ => {}
 		}
